@@ -30,7 +30,12 @@ def job(j):
         accepted = False
         try:
             d = pyast.program(src)
-            qf = qlassf(src) if not (kind == "bv" and it["form"] == "secret_oracle") else secret_oracle(n, it["secret"])
+            if it.get("opt") == "fast":
+                from qlasskit.boolopt import fastOptimizer
+                qf = qlassf(src, bool_optimizer=fastOptimizer)
+                c["key"] += " opt=fast"
+            else:
+                qf = qlassf(src) if not (kind == "bv" and it["form"] == "secret_oracle") else secret_oracle(n, it["secret"])
             accepted = True  # from here on an exception is not a rejection of the program
             c["def"] = d
             if kind == "grover":
@@ -119,12 +124,17 @@ def run(pid):
             xs, st = gen(sc, kind, nb, maxm)
             for k in gst:
                 gst[k] += st.get(k, 0)
+            import os
+            only = os.environ.get("VERIF_ONLY_ORIGIN")   # development aid: every member of one form
+            if only:
+                xs, per_form, cap = [x for x in xs if x.get("form") == only], None, None
             if per_form:
                 byf = {}
                 rng.shuffle(xs)
                 for x in xs:
                     byf.setdefault((x["form"], x.get("nmatch", 0)), []).append(x)
-                xs = [x for k in sorted(byf, key=str) for x in byf[k][:per_form]]
+                # the arithmetic form on 3 bits is small and narrow-trigger territory: every member
+                xs = [x for k in sorted(byf, key=str) for x in (byf[k] if (k[0] == "arith" and nb == 3) else byf[k][:per_form])]
             if cap and len(xs) > cap:
                 rng.shuffle(xs)
                 xs = xs[:cap]
